@@ -262,24 +262,9 @@ func failRecode(what string, c any) {
 	}
 }
 
-// docOverride: while a document is processed one of whose fonts uses a CMap with a
-// parent (usecmap), every failure is the known finding sigParent: the reader builds
-// the font's codec from the child's own (empty) code space ranges.
-var (
-	docOverride string
-	nOverrideBy = map[string]int{}
-	riseDocs    int
-)
+var riseDocs int
 
 func fail(sig, what string, c any) {
-	if docOverride != "" && sig != sigShare && sig != sigRecode {
-		nOverrideBy[docOverride]++
-		if nOverrideBy[docOverride] > 6 {
-			return
-		}
-		what = what + " [" + sig + "]"
-		sig = docOverride
-	}
 	e.Fail(sigPrefix+sig, what, c)
 }
 
@@ -387,13 +372,8 @@ func runDocument(p docPlan, label string) {
 		panic(err)
 	}
 	fonts := make([]*liveFont, len(p.kinds))
-	docOverride = ""
-	defer func() { docOverride = "" }()
 	for i, ki := range p.kinds {
 		fonts[i] = newLiveFont(kinds[ki])
-		if kinds[ki].parentCMap {
-			docOverride = sigParent
-		}
 	}
 	var labels []string
 	for _, lf := range fonts {
@@ -442,10 +422,8 @@ func runDocument(p docPlan, label string) {
 				}
 				// (the fonts' own kerning also puts numbers into the TJ array)
 				_ = kerned
-				if changes > 0 && docOverride == "" {
-					// known finding: TextShowGlyphs re-uses the TJ array it has just emitted
-					docOverride = sigTJ
-					riseDocs++
+				if changes > 0 {
+					riseDocs++ // several TJ operators from one TextShowGlyphs call (F49)
 				}
 			}
 		}
